@@ -20,11 +20,11 @@ import (
 var c20Ops = []string{"none", "dup-id", "dup-destination", "shadow-id-before", "shadow-id-after", "shadow-all-after", "second-issuer-last", "second-issuer-first", "issuer-after-status",
 	"nested-issuer", "foreign-ns-issuer", "comment-in-issuer", "cdata-in-issuer", "charref-in-issuer", "whitespace-around-issuer", "xml-decl-and-comment", "dup-version", "dup-inresponseto", "issuer-empty-then-real", "trailing-issuer", "pi-in-issuer", "pi-before-issuer-text", "envelope-issuer-differs",
 	"encrypted-issuer-after-issuer", "encrypted-issuer-last", "encrypted-issuer-first", "encrypted-status-last",
-	"nsdecl-id-after", "nsdecl-id-before", "nsdecl-all-after"}
+	"nsdecl-id-after", "nsdecl-id-before", "nsdecl-all-after", "second-root-trailing", "second-root-leading"}
 
 // operators an attacker can apply to a SIGNED envelope as well: namespace declarations for prefixes
 // nobody uses are dropped by exclusive canonicalisation, so the signature still verifies
-var c20SignedSafe = map[string]bool{"nsdecl-id-after": true, "nsdecl-id-before": true, "nsdecl-all-after": true}
+var c20SignedSafe = map[string]bool{"nsdecl-id-after": true, "nsdecl-id-before": true, "nsdecl-all-after": true, "second-root-trailing": true, "second-root-leading": true}
 
 // the SPs behind the router share one decryption key (anyone can encrypt to its certificate)
 const c20SPKey = 4
@@ -37,7 +37,7 @@ func init() {
 			"oracle: whenever validation under any configured SP accepts, the pre-decode succeeded and reports the same ID, InResponseTo, Destination, Version, Issuer, so the routed-to configuration is the accepting one; distinct = shape hash (kind, placement, layout, envelope ops, presentation, outcomes)",
 		Directed:   c20Directed,
 		Run:        c20Run,
-		MustHit:    []string{"kind=Response", "kind=LogoutResponse", "op=dup-id", "op=shadow-id-after", "op=second-issuer-last", "op=second-issuer-first", "op=nested-issuer", "op=comment-in-issuer", "compressed", "skip_config", "accepted_with_ops", "route_to_B", "op=pi-in-issuer", "issuer_unconfigured", "op=encrypted-issuer-after-issuer", "op=encrypted-issuer-last", "op=nsdecl-id-after", "signed_envelope_shaped"},
+		MustHit:    []string{"kind=Response", "kind=LogoutResponse", "op=dup-id", "op=shadow-id-after", "op=second-issuer-last", "op=second-issuer-first", "op=nested-issuer", "op=comment-in-issuer", "compressed", "skip_config", "accepted_with_ops", "route_to_B", "op=pi-in-issuer", "issuer_unconfigured", "op=encrypted-issuer-after-issuer", "op=encrypted-issuer-last", "op=nsdecl-id-after", "op=second-root-trailing", "signed_envelope_shaped", "message_of_megabytes_compressed"},
 		RandomRuns: map[string]int{"quick": 6000, "thorough": 80000},
 	})
 }
@@ -58,6 +58,9 @@ func c20Directed(tier string) [][]uint64 {
 				}
 			}
 		}
+		for place := uint64(0); place < 3; place++ {
+			out = append(out, []uint64{kind, 0, place, 0, 0, 0, 1, 1}) // megabytes, compressed
+		}
 	}
 	return out
 }
@@ -71,6 +74,7 @@ func c20Run(r *core.Run) {
 	op1 := c20Ops[t.Int(len(c20Ops), "c20.op1")]
 	op2 := c20Ops[t.Int(len(c20Ops), "c20.op2")]
 	compress := t.Int(2, "c20.compress") == 1
+	big := t.Int(150, "c20.big") == 1 // a message of 1-4 MiB (below every limit), always presented compressed too
 
 	s := NewStd(r)
 	r.Probe("kind=" + kind)
@@ -138,6 +142,11 @@ func c20Run(r *core.Run) {
 		if place != PlaceAssertions {
 			m.Sign = world.DrawSigOpts(t, keys[who], certs[who])
 		}
+	}
+	if big {
+		m.InResponseTo = "_req" + strings.Repeat("x", (1<<20)+t.Int(3<<20, "c20.big.n"))
+		compress = true
+		r.Probe("message_of_megabytes_compressed")
 	}
 	lay := world.DrawLayout(t)
 	xml, err := idp.Issue(m, lay, r.Sim.Now())
@@ -297,6 +306,22 @@ func c20Apply(xml, op string, m *world.LResponse, other string) (string, bool) {
 		return strings.Replace(xml, idAttr(q), `Version=`+q+`1.1`+q+` `+idAttr(q), 1), true
 	case "dup-inresponseto":
 		return strings.Replace(xml, idAttr(q), idAttr(q)+` InResponseTo=`+q+`_evil_irt`+q, 1), true
+	case "second-root-trailing", "second-root-leading":
+		// a second top-level element (Go's decoder and etree tolerate it): a copy of the message with
+		// another ID and the other IdP's issuer
+		body := xml
+		decl := ""
+		if strings.HasPrefix(body, "<?xml") {
+			if i := strings.Index(body, "?>"); i > 0 {
+				decl, body = body[:i+2], body[i+2:]
+			}
+		}
+		evil := strings.Replace(body, idAttr(q), `ID=`+q+`_trailer`+q, 1)
+		evil = strings.Replace(evil, issEl, otherEl, 1)
+		if op == "second-root-trailing" {
+			return decl + body + evil, true
+		}
+		return decl + evil + body, true
 	case "nsdecl-id-after":
 		return strings.Replace(xml, idAttr(q), idAttr(q)+` xmlns:ID=`+q+`_evil`+q, 1), true
 	case "nsdecl-id-before":
